@@ -6,7 +6,8 @@
    the bytes not consumed. *)
 From Coq Require Import List NArith ZArith Bool.
 From KV Require Import Lib.Bits Lib.Bytes Model.Legacy Model.ConnOps.
-From KV Require Import Proofs.ConnOpsBase Proofs.ConnOpsCodec Proofs.ConnOpsProofs Proofs.ConnOpsWitness.
+From KV Require Import Proofs.ConnOpsBase Proofs.ConnOpsCodec Proofs.ConnOpsProofs Proofs.ConnOpsWitness
+  Proofs.ConnOpsCustom Proofs.ConnOpsAll.
 Import ListNotations.
 Open Scope Z_scope.
 
@@ -19,20 +20,44 @@ Definition C11_aligned_after_kafka_error_full_statement : Prop :=
       = (st', RErr (EKafka code), s') ->
     s' = rest /\ closed st' = false.
 
-(* proved for every operation that reads its whole response and only then looks at error
-   codes (metadata v1/v6, brokers, controller, find-coordinator, join/sync/heartbeat/leave,
-   offset-commit/fetch, list-groups, create/delete-topics, sasl handshake/authenticate),
-   every version, every error field and code.  Missing for the full statement: produce and
-   fetch are refuted; list-offsets v1 and ApiVersions (aligned on single-topic/partition
-   responses) are covered by the exhaustive differential run only. *)
+(* proved for EVERY operation of Conn except produce and fetch, every version, error field and
+   code: the operations that read their whole response and only then look at error codes
+   (metadata v1/v6, brokers, controller, find-coordinator, join/sync/heartbeat/leave,
+   offset-commit/fetch, list-groups, create/delete-topics, sasl handshake/authenticate:
+   [schema_api]), list-offsets v1 and ApiVersions v0.  Missing for the full statement: produce
+   and fetch, which are refuted below. *)
 Theorem C11_aligned_after_kafka_error_partial : forall a v w st off code rest st' s',
-  schema_api a = true ->
+  (schema_api a = true \/ (a = AListOffsets /\ v = 1%N) \/ (a = AApiVersions /\ v = 0%N)) ->
   well_formed a v w -> fits (enc (resp_ty a v) w) -> closed st = false ->
   conn_do st (mkOp a v off) (frame (wrap32 (corr st + 1)) (enc (resp_ty a v) w) ++ rest)
     = (st', RErr (EKafka code), s') ->
   s' = rest /\ closed st' = false.
-Proof. intros a v w st off code rest st' s' Hs. exact (aligned_schema a v Hs w st off code rest st' s'). Qed.
+Proof. intros a v w st off code rest st' s' H. exact (aligned_all_but_produce_fetch a v H w st off code rest st' s'). Qed.
 Print Assumptions C11_aligned_after_kafka_error_partial.
+
+(* produce, every version, EVERY well-formed response carrying a partition error code: the
+   4-byte throttle field is left in the stream (the general form of F2 for produce) *)
+Theorem C11_produce_error_always_misaligned : forall v w st off code rest st' s',
+  well_formed AProduce v w -> fits (enc (resp_ty AProduce v) w) -> closed st = false ->
+  conn_do st (mkOp AProduce v off) (frame (wrap32 (corr st + 1)) (enc (resp_ty AProduce v) w) ++ rest)
+    = (st', RErr (EKafka code), s') ->
+  exists thr, s' = put_bes 4 thr ++ rest /\ closed st' = false.
+Proof. exact produce_error_never_aligned. Qed.
+Print Assumptions C11_produce_error_always_misaligned.
+
+(* produce and list-offsets on a well-formed response never fail otherwise: success (frame
+   consumed) or the Kafka error *)
+Theorem C11_produce_total : forall st v off name part thr rest,
+  wt TStr name -> wt (t_produce_part v) part ->
+  let body := enc (resp_ty AProduce v) (w_produce name part thr) in
+  let id := wrap32 (corr st + 1) in
+  fits body -> closed st = false ->
+  (exists x, conn_do st (mkOp AProduce v off) (frame id body ++ rest)
+             = (mkConn false id (cfg_topic st) (offset st), ROk x, rest)) \/
+  (exists c, conn_do st (mkOp AProduce v off) (frame id body ++ rest)
+             = (mkConn false id (cfg_topic st) (offset st), RErr (EKafka c), put_bes 4 thr ++ rest)).
+Proof. exact conn_do_produce_frame. Qed.
+Print Assumptions C11_produce_total.
 
 (* the same without any assumption on the incoming bytes: success or a Kafka error of such an
    operation means it consumed exactly the frame announced by the size prefix *)
